@@ -83,13 +83,62 @@ func Shrink(t *testing.T, sc *Scenario, prop, rule string, known []*KnownFinding
 	}
 	// 2. simplify the world
 	simpl := []func(w *WorldCfg) bool{
-		func(w *WorldCfg) bool { if w.StallProb == 0 { return false }; w.StallProb = 0; return true },
-		func(w *WorldCfg) bool { if w.Policy == "seq" { return false }; w.Policy, w.Sticky, w.PCTDepth = "seq", 0, 0; return true },
-		func(w *WorldCfg) bool { if w.Net.SplitProb == 0 { return false }; w.Net.SplitProb = 0; return true },
-		func(w *WorldCfg) bool { if w.Net.Jitter == 0 { return false }; w.Net.Jitter = 0; return true },
-		func(w *WorldCfg) bool { if !w.Decorators { return false }; w.Decorators = false; return true },
-		func(w *WorldCfg) bool { if len(w.Flags) == 0 { return false }; w.Flags = nil; return true },
-		func(w *WorldCfg) bool { if w.SortedMaps { return false }; w.SortedMaps = true; return true },
+		func(w *WorldCfg) bool {
+			if w.StallProb == 0 {
+				return false
+			}
+			w.StallProb = 0
+			return true
+		},
+		func(w *WorldCfg) bool {
+			if w.Policy == "seq" {
+				return false
+			}
+			w.Policy, w.Sticky, w.PCTDepth = "seq", 0, 0
+			return true
+		},
+		func(w *WorldCfg) bool {
+			if w.UnlockYield == 0 {
+				return false
+			}
+			w.UnlockYield = 0
+			return true
+		},
+		func(w *WorldCfg) bool {
+			if w.Net.SplitProb == 0 {
+				return false
+			}
+			w.Net.SplitProb = 0
+			return true
+		},
+		func(w *WorldCfg) bool {
+			if w.Net.Jitter == 0 {
+				return false
+			}
+			w.Net.Jitter = 0
+			return true
+		},
+		func(w *WorldCfg) bool {
+			if !w.Decorators {
+				return false
+			}
+			w.Decorators = false
+			return true
+		},
+		func(w *WorldCfg) bool {
+			if len(w.Flags) == 0 {
+				return false
+			}
+			w.Flags = nil
+			return true
+		},
+		func(w *WorldCfg) bool {
+			if w.SortedMaps {
+				return false
+			}
+			w.SortedMaps = true
+			return true
+		},
 	}
 	for _, f := range simpl {
 		c := cur
